@@ -259,6 +259,28 @@ pub fn emit_case(rng: &mut Rng, bytes0: &[u8], out: &mut Vec<String>, native_fri
                 bytes = cand;
             }
         }
+        // the same register as both operands (`xor eax, eax`, `sub rcx, rcx`, `xchg bl, bl`, `cmp r9, r9`): idioms that code
+        // special-cases, practically never produced by independent fields. ModRM.rm := ModRM.reg, REX.B := REX.R
+        if d0.op_count() >= 2 && d0.op0_kind() == OpKind::Register && d0.op1_kind() == OpKind::Register && rng.chance(1, 5) {
+            for k in (0..head).rev() {
+                let mut cand = bytes.clone();
+                if cand[k] & 0xc0 != 0xc0 {
+                    continue;
+                }
+                cand[k] = (cand[k] & !0x07) | ((cand[k] >> 3) & 7);
+                for j in 0..k {
+                    if cand[j] & 0xf0 == 0x40 {
+                        cand[j] = (cand[j] & !0x01) | ((cand[j] >> 2) & 1);
+                    }
+                }
+                let mut dd = Decoder::with_ip(64, &cand, code_base, DecoderOptions::NONE);
+                let i1 = dd.decode();
+                if !i1.is_invalid() && (i1.code(), i1.len(), shape_key(&i1)) == key0 && i1.op0_register() == i1.op1_register() {
+                    bytes = cand;
+                    break;
+                }
+            }
+        }
     }
     let mut d = Decoder::with_ip(64, &bytes, code_base, DecoderOptions::NONE);
     let ins = d.decode();
@@ -649,7 +671,14 @@ pub fn emit_case(rng: &mut Rng, bytes0: &[u8], out: &mut Vec<String>, native_fri
                     }
                 }
                 if place == Place::Ro {
-                    out.push(format!("prot {:x} 1", page));
+                    // not writable in various ways: read-only data, read+execute (code-like), no access, execute-only; and
+                    // the write-only masks. Natively W implies R and X-only pages are readable, so only the masks whose
+                    // meaning coincides on both sides are compared with the CPU
+                    let mask = *rng.pick(&[1u64, 1, 1, 5, 5, 5, 0, 4, 2, 6]);
+                    if matches!(mask, 2 | 4 | 6) {
+                        out.push("nonative".into());
+                    }
+                    out.push(format!("prot {:x} {:x}", page, mask));
                 }
                 let ws = ea.saturating_sub(16).max(page);
                 let we = (ea.saturating_add(sz + 16)).min(page + len);
@@ -734,8 +763,18 @@ pub fn gen_filtered(
         if temps.is_empty() {
             continue;
         }
+        // memory operands come in dozens of shapes (base/index/scale/displacement size/segment), register operands in one:
+        // picking uniformly over templates would leave the register forms — the bulk of real code — with a few percent
+        let reg_temps: Vec<Vec<u8>> = temps
+            .iter()
+            .filter(|t| {
+                let mut d = Decoder::with_ip(64, t, CODE, DecoderOptions::NONE);
+                !has_mem(&d.decode())
+            })
+            .cloned()
+            .collect();
         for _ in 0..per {
-            let tpl = rng.pick(&temps).clone();
+            let tpl = if !reg_temps.is_empty() && rng.chance(2, 5) { rng.pick(&reg_temps).clone() } else { rng.pick(&temps).clone() };
             let _ = emit_case(&mut rng, &tpl, out, true);
         }
     }
